@@ -627,6 +627,8 @@ class Run:
         if c < 0.79 and 'discard' in F:
             return ('discard', [self.gen_op(depth + 1) for _ in range(rng.randint(1, 3))])
         if c < 0.87 and 'trigger' in F:
+            if rng.random() < 0.08:
+                return ('badtrigger', rng.sample(NAMES, rng.randint(0, 1)))      # names an unknown parameter: must fail cleanly
             return ('trigger', rng.sample(NAMES, rng.randint(1, 2)))
         if c < 0.92 and 'unwatch' in F:
             return ('unwatch', rng.randrange(8))
@@ -733,6 +735,19 @@ class Run:
             for key in self.model:
                 if self.model[key] is before[key] and self.current(key) is not before[key]:
                     self.err('trigger-altered-value', f'{key} changed by trigger({op[1]})')
+        elif k == 'badtrigger':
+            # a trigger call that names something that is not a parameter fails as a whole: nothing is announced for the
+            # other names, and whatever was pending before stays pending
+            self.stats['failed_triggers'] = self.stats.get('failed_triggers', 0) + 1
+            names = list(op[1]) + ['no_such_parameter']
+            self.rng.shuffle(names)
+            self.log('trigger (unknown name)', names)
+            n_before = len(self.trace)
+            try:
+                self.o.param.trigger(*names)
+                self.err('trigger-unknown-name-accepted', f'trigger({names}) did not raise')
+            except (KeyError, ValueError, AttributeError, TypeError):
+                pass
         elif k == 'unwatch':
             if op[1] < len(self.reg):
                 self.do_unwatch(self.reg[op[1]])
@@ -810,6 +825,8 @@ def _prog_shape(prog):
             out.append((op[0], len(op[1])))
         elif op[0] in ('set', 'setsame', 'setvary'):
             out.append((op[0], op[1][1]))
+        elif op[0] == 'badtrigger':
+            out.append(op[0])
         else:
             out.append(op[0])
     return tuple(out)
